@@ -150,7 +150,7 @@ def random_history(rng: random.Random, steps: int, wild_ok: bool):
     last = None
     for _ in range(steps):
         op = rng.choice(["add", "add", "add", "addvar", "addvar", "rmidx", "rmidxs", "rminst", "rminsts", "allow", "allow0",
-                         "require", "reindex", "find", "find", "rmdup", "addstr", "addderived"])
+                         "require", "reindex", "find", "find", "rmdup", "addstr", "addderived", "addfile"])
         n = len(net.reaction_list)
         if op == "add":
             d = random_reaction(rng, wild_ok, pool)
@@ -170,6 +170,21 @@ def random_history(rng: random.Random, steps: int, wild_ok: bool):
             new.reactants, new.products = list(tmpl.reactants), list(tmpl.products)
             new.temp_min, new.temp_max, new.reaction_type, new.idxfromfile = tmpl.temp_min, tmpl.temp_max, tmpl.reaction_type, tmpl.idxfromfile
             net.add_reaction(new)
+        elif op == "addfile":
+            # add_reaction_from_file: a small file in the exchange format (written by the harness's own encoder), blank line included
+            import encoders
+            import tempfile
+            ds = [random_reaction(rng, False, pool) if rng.random() < 0.5 else rng.choice(seen) for _ in range(rng.randint(1, 3))]
+            ds = [d2 for d2 in ds if d2[4] != 999]
+            seen.extend(ds)
+            with tempfile.NamedTemporaryFile("w", suffix=".naunet", delete=False, dir=os.environ.get("TMPDIR")) as tf:
+                for j, d2 in enumerate(ds):
+                    tf.write(encoders.native({"r": list(d2[0]), "p": list(d2[1]), "a": 1.0e-10, "b": 0.0, "c": 0.0, "tmin": d2[2], "tmax": d2[3],
+                                              "idx": d2[5] if d2[5] >= 0 else j + 1, "code": d2[4]}) + "\n" + ("\n" if j == 0 else ""))
+            try:
+                net.add_reaction_from_file(tf.name, "naunet")
+            finally:
+                os.unlink(tf.name)
         elif op == "addstr":
             d = rng.choice(seen)
             s = f"{mk(d):naunet}"
